@@ -17,9 +17,9 @@ import itertools
 from . import c13_gen as G
 
 PROPERTY = 'C13'
-GEN_MODULES = ['lexgen']
-LEAN_TARGETS = ['ChibiVerif.Props.C13', 'ChibiVerif.Findings.C13']
-PROPS_FILES = ['ChibiVerif/Props/C13.lean']
+GEN_MODULES = ['lexgen', 'literals']
+LEAN_TARGETS = ['ChibiVerif.Props.C13', 'ChibiVerif.Props.C13Components', 'ChibiVerif.Findings.C13']
+PROPS_FILES = ['ChibiVerif/Props/C13.lean', 'ChibiVerif/Props/C13Components.lean']
 NEEDS_HOOKS = False
 TRUSTED_BASE = [
     'Lean 4.33.0 kernel; axioms admitted: propext, Classical.choice, Quot.sound (audited per theorem on every run)',
@@ -820,10 +820,12 @@ def correspond(ctx, corr):
 
 
 def component_theorems(ctx):
-    p = os.path.join(ctx.lean_dir, 'ChibiVerif/Props/C13.lean')
-    if not os.path.exists(p):
-        return []
-    return re.findall(r'^theorem\s+(\S+)', open(p).read(), re.M)
+    out = []
+    for f in PROPS_FILES:
+        p = os.path.join(ctx.lean_dir, f)
+        if os.path.exists(p):
+            out += re.findall(r'^theorem\s+(\S+)', open(p).read(), re.M)
+    return out
 
 
 def search(ctx, broken, corr):
